@@ -116,11 +116,47 @@ def run(vc):
                 note="reference-column groups find the members of the dropped elements in the element table: it must still hold the rows")
     vc.explore("drop_elements_at_buses", h_drop, max_paths=40)
 
+    # ---- the other row-dropping helpers of the cascade: members are detached before the rows go -------------------------------------
+    for fn, et, args in (("drop_switches_at_buses", "switch", [Opaque("buses")]),
+                         ("drop_measurements_at_elements", "measurement", ["load", Opaque("idx")])):
+        def h_other(p, fn=fn, et=et, args=args):
+            log = []
+            p.it.attr_hooks.append((C22.GTable, C22.gtable_attr))
+            p.it.attr_hooks.append((C22.GNet, C22.gnet_attr))
+            net = C22.GNet(log, C22.TABLES)
+            me = p.it.modenv(GM)
+            me.vals["detach_from_groups"] = Native(lambda it, n, et_, idx, index=None: log.append(("detach", et_, n.tables[et_].version)),
+                                                   name="detach_from_groups", pure=False)
+            me.vals["ensure_iterability"] = Native(lambda it, x, *a, **k: x, name="ensure_iterability")
+            p.it.lenient_numpy = True
+            out = p.call(f"{GM}:{fn}", net, *args)
+            if out.raised:
+                raise EngineError(f"{fn} raised {out.exc!r}")
+            det = [e for e in log if e[0] == "detach" and e[1] == et]
+            drops = [k for k, e in enumerate(log) if (e[0] == "drop" and e[1] == et) or (e[0] == "assign" and e[1] == et)]
+            p.prove(f"{fn}:the dropped {et} rows are detached from the groups", len(det) == 1, meta=dict(part="order"),
+                    note="a group that lists a dropped switch / measurement would keep a member that no longer exists")
+            p.prove(f"{fn}:detach-before-rows-are-dropped", bool(det) and all(e[2] == 0 for e in det) and bool(drops) and
+                    all(k > log.index(det[0]) for k in drops), meta=dict(part="order"))
+        vc.explore(fn, h_other, max_paths=40)
+
+    if not hasattr(vc, "native_standins"):
+        vc.native_standins = []
+    vc.native_standins.append(dict(
+        name="further group operations against a set model",
+        bound="three small fixed networks: attach_to_group to a group that is not the first row of net.group; drop_buses with switches and "
+              "measurements of the bus in groups; reindex_elements for a part of the elements (lookup shorter than the table, old_indices "
+              "shorter than the lookup)",
+        script="from replaylib.groupsets import main_more\nmain_more()\n"))
+
 
 def classify(ob, model):
     return ob.meta.get("part", "")
 
 
 def replay(ob, model, finding=None):
+    if "drop_switches_at_buses" in ob.id or "drop_measurements_at_elements" in ob.id:
+        return {"script": f"# replay of {ob.id}\nfrom replaylib.groupsets import main_more\nmain_more()\n",
+                "description": "drop_buses on a network whose switches and measurements are group members: membership against a set model"}
     return {"script": f"# replay of {ob.id}\nfrom replaylib.groupsets import main\nmain()\n",
             "description": "group membership after detach / drop operations against a set model (index groups and name-referenced groups)"}
